@@ -51,7 +51,7 @@ class State(object):
 # request must take; the probabilistic gate of that shape is then skipped and the other shapes stay off.
 FORCE = None
 TARGETS = ('joint_claim', 'joint_claim_reshape', 'conflict_tail', 'conflict_tail_reshape', 'drop_in_use',
-           'resize_in_use', 'agg_share', 'agg_share', 'float_edge', 'float_edge', 'drop_held_by_other', 'move')
+           'resize_in_use', 'agg_share', 'agg_share', 'float_edge', 'float_edge', 'drop_held_by_other', 'move', 'retighten')
 # (total, allocation_ratio) whose double product is just BELOW an integer: total * ratio = c - epsilon; capacity is c - 1
 FLOAT_EDGES = [(100, 1.15), (90, 0.7), (180, 0.35), (50, 2.3), (180, 1.15), (170, 0.7)]
 
@@ -267,6 +267,54 @@ def resize_in_use(rng, st, ri, cs, v):
         total = rng.randint(1, used - 1)
         amount = used
     new = {'rc': rc, 'total': total, 'reserved': 0, 'min': 1, 'max': ops.MAX_INT, 'step': 1, 'ratio': 1.0, '_omit': ()}
+    ri[:] = [(u, st.gen_of(u), others + [new])]
+    rows = {}
+    for b in st.allocs:
+        if b[0] == c:
+            rows.setdefault(b[1], []).append((st_rcname(st, b[2]), amount if (b[1] == u and b[2] == rcid) else b[3]))
+    k = st.cons[c]
+    cs[:] = [{'uuid': c, 'allocs': sorted(rows.items()), 'proj': k[1], 'user': k[2], 'gen': k[4],
+              'type': (k[3] if k[3] != -1 else 1) if v >= 38 else None}]
+
+
+def retighten(rng, st, ri, cs, v):
+    """Targeted: a reshape that keeps a class a consumer holds at the SAME capacity (same total, reserved and ratio, or another
+    total x ratio with the same product) but changes its unit constraints, the consumer's allocation restated in the same request:
+    the amount must be judged by the NEW max_unit / min_unit / step_size (violating them: rejected; satisfying only them: accepted)."""
+    if gate(rng, 'retighten', 0.85):
+        return
+    sole = [a for a in st.allocs if a[0] in st.cons and a[1] in st.rps and a[3] >= 2]
+    if not sole:
+        return
+    c, u, rcid, used = rng.choice(sole)
+    rc = st_rcname(st, rcid)
+    if rc not in st.invs.get(u, {}):
+        return
+    row = st.invs[u][rc]
+
+    def inv_of(rw, r):
+        return {'rc': r, 'total': rw[2], 'reserved': rw[3], 'min': rw[4], 'max': rw[5], 'step': rw[6],
+                'ratio': rw[7] * 2.0 ** rw[8], '_omit': ()}
+    new = inv_of(row, rc)
+    how = rng.choice(['max', 'min', 'step', 'max_ok'])
+    amount = used
+    if how == 'max':
+        new['max'] = used - 1
+    elif how == 'min':
+        new['min'] = used + 1
+        new['max'] = max(new['max'], used + 1)
+    elif how == 'step':
+        new['step'] = used + 1
+    else:
+        # units RELAXED where the old ones forbade the amount the consumer now asks for: old max_unit below it
+        cap = int((row[2] - row[3]) * (row[7] * 2.0 ** row[8]))
+        others_used = st.used(u, rc) - used
+        if row[5] >= cap - others_used or row[6] != 1:
+            new['max'] = used - 1
+        else:
+            amount = row[5] + 1
+            new['max'] = ops.MAX_INT
+    others = [inv_of(st.invs[u][r], r) for r in st.invs[u] if r != rc]
     ri[:] = [(u, st.gen_of(u), others + [new])]
     rows = {}
     for b in st.allocs:
@@ -493,6 +541,7 @@ def gen_op(rng, dump, profile='default'):
     conflict_tail(rng, st, cs, max(v, 28))
     drop_in_use(rng, st, ri, cs, v)
     resize_in_use(rng, st, ri, cs, v)
+    retighten(rng, st, ri, cs, v)
     if FORCE == 'drop_held_by_other':
         # directed: the new inventory of a provider omits a class that a consumer NOT named by the request holds there
         held = sorted(set((a[1], a[2]) for a in st.allocs if a[1] in st.rps))
